@@ -3,7 +3,9 @@
 cd "$(dirname "$0")/.."
 TIER=${1:-quick}
 for p in $(python3 -c "import json;print(' '.join(c['property_id'] for c in json.load(open('MANIFEST.json'))['checks']))"); do
-  ./vcheck $p --tier $TIER 2>&1 | grep "^VIOLATION\|^KNOWN\|HARNESS\|^C[0-9][0-9] " | cut -c1-220
-  echo "exit($p)=${PIPESTATUS[0]}"
+  out=$(./vcheck $p --tier $TIER 2>&1); rc=$?
+  echo "$out" | grep -A2 "^VIOLATION" | grep -v "^--" | cut -c1-400
+  echo "$out" | grep "^KNOWN\|HARNESS\|^C[0-9][0-9] " | cut -c1-220
+  echo "exit($p)=$rc"
 done
 echo ALLDONE
